@@ -1,5 +1,5 @@
 #!/usr/bin/env python3
-"""tools/mutant_survey.py Cxx [...] [--max N] [--jobs K] — which generic mutants of the anchored mechanisms survive the EXISTING tests and are
+"""tools/mutant_survey.py Cxx [...] [--max N] [--jobs K] [--seed S] — which generic mutants of the anchored mechanisms survive the EXISTING tests and are
 not reported by the static checks?  (development aid; runs the test-suite of scratch copies under /tmp/mut, never /repo)
 Stage 0: mutants (tools/auto_mutants operators) of the functions inside the property's anchors.mechanism line ranges; static verdict with the property's rules.
 Stage 1: every statically-silent mutant is written into a scratch copy of the package and the mapped test files run with -x (killed / survived).
@@ -126,6 +126,9 @@ def main():
         mx = int(argv[argv.index("--max") + 1]); del argv[argv.index("--max"):argv.index("--max") + 2]
     if "--jobs" in argv:
         jobs = int(argv[argv.index("--jobs") + 1]); del argv[argv.index("--jobs"):argv.index("--jobs") + 2]
+    seed = 7
+    if "--seed" in argv:
+        seed = int(argv[argv.index("--seed") + 1]); del argv[argv.index("--seed"):argv.index("--seed") + 2]
     props = argv
     os.makedirs(ROOT, exist_ok=True)
     for k in range(jobs):
@@ -137,7 +140,7 @@ def main():
     stable = stable_ids()
     repo = Repo()
     pj = {json.loads(l)["id"]: json.loads(l) for l in open("/verif/properties.jsonl")}
-    rnd = random.Random(7)
+    rnd = random.Random(seed)
     for prop in props:
         base = [list(f.key()) for r in cli.run_property(prop, repo) for f in r.findings]
         ranges = {}
